@@ -1,8 +1,10 @@
 """C18 - Cache replays exactly the stored flow and never serves a truncated one.
 
 Fault enumeration (drivers E4 + E5 of DESIGN.md). A *shape* is a pipeline with one or two
-lena.flow.Cache elements (in a Source, in a Sequence, nested, in a Split branch given as a Sequence or
-as a tuple, or passed through lena.core.alter_sequence / Cache.alter_sequence), elements in front of,
+lena.flow.Cache elements (in a Source, in a Sequence, nested, in a Split branch given as a Sequence, as
+nested Sequences, as a tuple or as the bare Cache element - the cache being the only, the first, a middle
+or the last element of the branch -, or passed through lena.core.alter_sequence /
+Cache.alter_sequence), elements in front of,
 between and behind the caches taken from {logging callable, Slice, fill/compute accumulator, in-place
 mutator, SetContext (an element without data; a cache may take its file name from it)}, a flow kind and
 a flow length n. A *history* is a sequence of runs over what the previous runs left in a
@@ -14,7 +16,8 @@ is one of
     upraise k                     the source raises instead of producing value k = 0..n
     downraise k                   a callable appended behind the pipeline raises on its call k = 0..L-1
     downslice m                   a Slice(m), m = 0..L, appended behind the pipeline stops consuming
-    long                          (Split branch only) a complete run whose source is twice as long
+    long                          (Split branch only) a complete run whose source is twice as long as
+                                  the Split buffer (two blocks), when the branch must replay a cache
 
 preceded by nothing, by recompute=True or by drop_cache() on all / one of the caches. While runs whose
 consumer kept the generator after k >= 1 values are suspended, every next run is tried with them left
@@ -57,8 +60,12 @@ ASSUMPTIONS = [
     "without data); at most two Cache elements per pipeline; cache file names are plain or one "
     "{{key}} template filled in by a SetContext of the same sequence (drop_cache() is then called "
     "once the cache stands in that sequence: before, it does not know its file)",
-    "Split placements have ONE branch and a buffer that holds the whole first-run flow (a Sequence with "
-    "a Cache that is run once per block is documented in lena/core/split.py as unsupported); pulls on "
+    "Split placements have ONE branch (a Sequence, nested Sequences, a tuple, or the bare Cache element; "
+    "the cache its only, first, middle or last element) and a buffer that holds the whole first-run flow "
+    "(a Sequence with "
+    "a Cache that is run once per block is documented in lena/core/split.py as unsupported); a source of "
+    "two blocks ('long') is given only to runs that every allowed state serves from a cache (the branch "
+    "is then a Source, which Split documents as producing its complete flow once); pulls on "
     "the source in front of a Split are not constrained, only elements inside the branch are",
     "after an interrupted run a cache is allowed to hold nothing or the complete flow (or, under "
     "recompute, its previous content); whether a consumer that stopped exactly after the last value "
@@ -97,14 +104,17 @@ def _dom(tier):
 def describe(tier):
     d = _dom(tier)
     return ("flows of length 0..%d; pipeline shapes: %d (placements source, sequence, nested, split_seq, split_nested, "
-            "split_tuple, alter, cache_alter, alter_element; one or two caches; %d with SetContext elements, "
+            "split_tuple, split_element, alter, cache_alter, alter_element; one or two caches; in a Split "
+            "branch of every form the cache as only / first / middle / last element, %d of these shapes with a "
+            "buffer of exactly the first-run flow and 'long' (two-block) replays; %d with SetContext elements, "
             "plain and context-formatted cache names), flow kinds ints for all "
             "shapes and (int, context) / falsy pool for %d of them; all histories of <= depth[n] runs, "
             "depth by flow length n = %s, explored with merging of identical (depth, directory snapshot, "
             "model state); additionally all histories of <= %d runs for n <= %d without merging; every "
             "interruption point k of every kind in every run; suspended runs (consumer kept the generator "
             "after k >= 1 values) left alone, closed before, or resumed to their end after %s"
-            % (d["N"], len(_shapes(tier)), sum(1 for sh in _shapes(tier) if SC in sh[1]),
+            % (d["N"], len(_shapes(tier)), sum(1 for sh in _shapes(tier) if sh[2] == "n"),
+               sum(1 for sh in _shapes(tier) if SC in sh[1]),
                sum(1 for sh in _shapes(tier) if len(_flowkinds(*sh[:2])) > 1),
                json.dumps(d["depth"], sort_keys=True), d["plain_depth"], d["plain_N"],
                "every later complete or stopped-and-closed run" if tier == "thorough"
@@ -202,7 +212,19 @@ def _shapes(tier):
         out.append(("split_tuple", elems, "default"))
     for elems in [[F, CA], [F, ACC, CA]]:
         out.append(("split_tuple", elems, "n"))
+    # position of the cache in its branch (only / first / middle / last element) x form of the branch
+    # (Sequence, nested Sequences, tuple, the bare Cache element), all with a buffer of exactly the
+    # first-run flow, so that a later run can be given a source of several blocks ("long"): what is left
+    # of the product after the shapes above
+    for elems in [[CA], [CA, G]]:
+        out.append(("split_seq", elems, "n"))
+    out.append(("split_nested", [CA, G], "n"))
+    for elems in [[CA], [CA, G], [F, CA, G]]:
+        out.append(("split_tuple", elems, "n"))
+    out.append(("split_element", [CA], "n"))
     if thorough:
+        out.append(("split_nested", [CA], "n"))
+        out.append(("split_element", [CA], "default"))
         out.append(("split_seq", [F, CA], "none"))
         out.append(("split_seq", [F, CA, ACC2], "default"))
         out.append(("split_tuple", [F, CA, F2, CB], "n"))
@@ -444,11 +466,13 @@ def _start(shape, els, tail, src, drop, counters):
         s = lena.core.Source(src, lena.core.Sequence(*els[:p + 1]), *(els[p + 1:] + tail))
         drop()
         return s()
-    if pl in ("split_seq", "split_nested", "split_tuple"):
+    if pl in ("split_seq", "split_nested", "split_tuple", "split_element"):
         if pl == "split_seq":
             branch = lena.core.Sequence(*els)
         elif pl == "split_nested":
             branch = _nest(els, M.cache_positions(elems)[0])
+        elif pl == "split_element":
+            (branch,) = els         # the Cache itself is the branch
         else:
             branch = tuple(els)
         drop()
@@ -554,6 +578,9 @@ class Pipeline(object):
         elif pl == "split_tuple":
             self.obj = lena.core.Source(self.src, lena.core.Split([tuple(els)], **_bufsize(shape)))
             self.call = True
+        elif pl == "split_element":
+            self.obj = lena.core.Source(self.src, lena.core.Split(list(els), **_bufsize(shape)))
+            self.call = True
         else:
             raise ValueError(pl)
 
@@ -588,7 +615,8 @@ class Pipeline(object):
 
 
 def reusable(shape):
-    return (shape["placement"] in ("source", "sequence", "nested", "split_seq", "split_nested", "split_tuple")
+    return (shape["placement"] in ("source", "sequence", "nested", "split_seq", "split_nested", "split_tuple",
+                                   "split_element")
             and all(sp[0] in ("f", "cache", "mut", "setctx") for sp in shape["elems"]))
 
 
@@ -954,12 +982,14 @@ def replay(case):
 
 
 LEVEL_TEXT = ("fault enumeration: for every pipeline shape with one or two Cache elements (in a Source, "
-              "a Sequence, nested, a Split branch, or hoisted by alter_sequence; with and without "
+              "a Sequence, nested, a Split branch - a Sequence, nested Sequences, a tuple or the bare Cache, the "
+              "cache being its only, first, middle or last element -, or hoisted by alter_sequence; with and without "
               "SetContext elements and context-formatted cache names), every flow of 0..3 "
               "(thorough 0..4) values of three kinds and every history of up to 3 (thorough 4) runs - each "
               "run being complete, or interrupted at every point k by the consumer stopping (closing or "
               "abandoning the generator), by the source raising, by a downstream element raising or by a "
-              "downstream Slice, optionally preceded by recompute=True or drop_cache(), suspended runs "
+              "downstream Slice, or (a Split branch that must replay) complete over a source of two Split blocks, "
+              "optionally preceded by recompute=True or drop_cache(), suspended runs "
               "being left alone, closed, or resumed to their end after a later run - the real code is "
               "executed in the directory the history left behind, with an instrumented source and logging "
               "elements, and judged by a non-deterministic reference model of what a cache may hold")
